@@ -234,7 +234,8 @@ def main(argv=None):
     # lower layers whose specifications this check relies on: their obligations are part of this check's claim (framework.Check.include)
     for dep in ['C06', 'C09', 'C02', 'C03', 'C04', 'C05', 'C01', 'C07', 'C10', 'C19', 'C20']:
         chk.include(dep)
-    chk.include("C15", only=r"^fq12-io")      # the symmetric key is hashed from Fq12::write_big_endian of the pairing value
+    chk.include("C15")    # fq12-io: the symmetric key is hashed from Fq12::write_big_endian of the pairing value; the rest: objects loaded from bytes are the marshalled ones
+
     chk.run()
     chk.finish()
 
